@@ -243,25 +243,273 @@ Proof.
   rewrite !andb_true_iff, !N.eqb_eq. intros [[-> ->] ->]. now exists a, b, c, d, s4.
 Qed.
 
+(* conc_ok as it was before: a view was resolved to the FIRST candidate it matches *)
+Definition conc_ok_before {V IT} (cands : list V) (matches : V -> IT -> bool) (o : list IT * list (list (list N))) : bool :=
+  let '(table, readers) := o in
+  match all_some (map (fun it => find_idx (fun v => matches v it) cands 0%N) table) with
+  | None => false
+  | Some idx =>
+      forallb (fun recs =>
+        match all_some (map (fun r => all_some (map (fun k => nth_error idx (N.to_nat k)) r)) recs) with
+        | None => false
+        | Some irecs => forallb record_ok irecs && nondecreasing (concat irecs)
+        end) readers
+  end.
+
+(* cur <= s1 <= s2 <= ... *)
+Fixpoint chain (cur : N) (ss : list N) : Prop :=
+  match ss with [] => True | s :: r => (cur <= s)%N /\ chain s r end.
+Lemma chain_sorted ss : forall cur, chain cur ss <-> Sorted N.le (cur :: ss).
+Proof.
+  induction ss as [|s r IH]; intros cur; cbn [chain].
+  - split; intros _; [repeat constructor|exact I].
+  - rewrite IH. split.
+    + intros [Hle Hs]. constructor; [exact Hs|constructor; exact Hle].
+    + intros Hs. inversion Hs as [|x l Hs' Hhd]; subst. inversion Hhd; subst. split; assumption.
+Qed.
+Lemma chain0_sorted ss : chain 0%N ss <-> Sorted N.le ss.
+Proof.
+  rewrite chain_sorted. split.
+  - intros H. now inversion H.
+  - intros H. constructor; [exact H|]. destruct ss; constructor. lia.
+Qed.
+Lemma chain_weaken ss : forall cur cur', (cur' <= cur)%N -> chain cur ss -> chain cur' ss.
+Proof. destruct ss as [|s r]; intros cur cur' Hle H; [exact I|]. cbn [chain] in *. destruct H. split; [lia|assumption]. Qed.
+Lemma sorted_nondecreasing l : Sorted N.le l -> nondecreasing l = true.
+Proof.
+  induction l as [|x [|y r] IH]; intros H; [reflexivity|reflexivity|].
+  inversion H as [|a b Hs Hhd]; subst. inversion Hhd; subst. cbn [nondecreasing].
+  apply andb_true_iff. split; [now apply N.leb_le|now apply IH].
+Qed.
+
+Lemma and_rows_set a : forall b n,
+  nth_error (and_rows a b) n = Some true <-> nth_error a n = Some true /\ nth_error b n = Some true.
+Proof.
+  induction a as [|x a IH]; intros b n.
+  - cbn [and_rows]. destruct n; cbn [nth_error]; split; [discriminate|intros [H _]; discriminate|discriminate|intros [H _]; discriminate].
+  - destruct b as [|y b]; cbn [and_rows].
+    + destruct n; cbn [nth_error]; split; try discriminate; intros [_ H]; discriminate.
+    + destruct n as [|n]; cbn [nth_error]; [|apply IH].
+      destruct x, y; cbn [andb]; split; try discriminate; try (intros [H1 H2]; discriminate); auto.
+Qed.
+Lemma next_set_spec row : forall i cur s,
+  next_set row i cur = Some s -> (i <= s)%N /\ (cur <= s)%N /\ nth_error row (N.to_nat (s - i)) = Some true.
+Proof.
+  induction row as [|b r IH]; intros i cur s H; cbn [next_set] in H; [discriminate|].
+  destruct (b && N.leb cur i) eqn:E.
+  - inversion H; subst s. apply andb_true_iff in E. destruct E as [-> Hle]. apply N.leb_le in Hle.
+    rewrite N.sub_diag. repeat split; [lia|exact Hle].
+  - destruct (IH _ _ _ H) as [Hi [Hc Hn]]. repeat split; [lia|exact Hc|].
+    replace (N.to_nat (s - i)) with (S (N.to_nat (s - N.succ i))) by lia. exact Hn.
+Qed.
+Lemma next_set_least row : forall i cur s',
+  (i <= s')%N -> (cur <= s')%N -> nth_error row (N.to_nat (s' - i)) = Some true ->
+  exists s, next_set row i cur = Some s /\ (s <= s')%N.
+Proof.
+  induction row as [|b r IH]; intros i cur s' Hi Hc Hn.
+  - destruct (N.to_nat (s' - i)); discriminate.
+  - cbn [next_set]. destruct (b && N.leb cur i) eqn:E; [now exists i|].
+    destruct (N.eq_dec s' i) as [->|Hne].
+    + rewrite N.sub_diag in Hn. cbn in Hn. inversion Hn; subst b. apply N.leb_le in Hc. rewrite Hc in E. discriminate.
+    + apply IH; [lia|exact Hc|]. replace (N.to_nat (s' - i)) with (S (N.to_nat (s' - N.succ i))) in Hn by lia. exact Hn.
+Qed.
+Lemma next_set0_spec row cur s : next_set row 0%N cur = Some s -> (cur <= s)%N /\ nth_error row (N.to_nat s) = Some true.
+Proof. intros H. apply next_set_spec in H. rewrite N.sub_0_r in H. tauto. Qed.
+Lemma next_set0_least row cur s' : (cur <= s')%N -> nth_error row (N.to_nat s') = Some true ->
+  exists s, next_set row 0%N cur = Some s /\ (s <= s')%N.
+Proof. intros Hc Hn. apply next_set_least; [lia|exact Hc|now rewrite N.sub_0_r]. Qed.
+
+Lemma all_some_of_Forall2 {A B} (f : A -> option B) l r :
+  Forall2 (fun a b => f a = Some b) l r -> all_some (map f l) = Some r.
+Proof. induction 1 as [|a b l r Hab _ IH]; [reflexivity|]. cbn [map all_some]. now rewrite Hab, IH. Qed.
+Lemma Forall2_nth_r {A B} (P : A -> B -> Prop) l r : Forall2 P l r ->
+  forall n b, nth_error r n = Some b -> exists a, nth_error l n = Some a /\ P a b.
+Proof.
+  induction 1 as [|a b0 l r Hab _ IH]; intros n b Hn; [destruct n; discriminate|].
+  destruct n as [|n]; cbn [nth_error] in *; [inversion Hn; subst; now exists a|now apply IH].
+Qed.
+Lemma Forall2_nth_l {A B} (P : A -> B -> Prop) l r : Forall2 P l r ->
+  forall n a, nth_error l n = Some a -> exists b, nth_error r n = Some b /\ P a b.
+Proof.
+  induction 1 as [|a0 b l r Hab _ IH]; intros n a Hn; [destruct n; discriminate|].
+  destruct n as [|n]; cbn [nth_error] in *; [inversion Hn; subst; now exists b|now apply IH].
+Qed.
+Lemma Forall2_Forall_l {A B} (P : A -> B -> Prop) (Q : A -> Prop) l r :
+  (forall a b, P a b -> Q a) -> Forall2 P l r -> Forall Q l.
+Proof. intros HPQ. induction 1; constructor; eauto. Qed.
+Lemma Forall2_imp_in {A B} (P Q : A -> B -> Prop) l r :
+  Forall2 P l r -> (forall a b, P a b -> Q a b) -> Forall2 Q l r.
+Proof. intros H HPQ. induction H; constructor; auto. Qed.
+Lemma filter_nil_false {A} (f : A -> bool) l : filter f l = [] -> forall x, In x l -> f x = false.
+Proof.
+  induction l as [|a l IH]; intros H x Hin; [destruct Hin|]. cbn [filter] in H. destruct (f a) eqn:E; [discriminate|].
+  destruct Hin as [<-|Hin]; [exact E|now apply IH].
+Qed.
+Lemma filter_le1_unique {A} (f : A -> bool) l : (length (filter f l) <= 1)%nat ->
+  forall j k v w, nth_error l j = Some v -> nth_error l k = Some w -> f v = true -> f w = true -> j = k.
+Proof.
+  induction l as [|a l IH]; intros Hlen j k v w Hj Hk Hv Hw; [destruct j; discriminate|].
+  cbn [filter] in Hlen. destruct (f a) eqn:E.
+  - cbn [length] in Hlen. assert (Hnil : filter f l = []) by (destruct (filter f l); [reflexivity|cbn in Hlen; lia]).
+    pose proof (filter_nil_false f l Hnil) as Hno.
+    destruct j as [|j], k as [|k]; cbn [nth_error] in *; [reflexivity| | |].
+    + apply nth_error_In in Hk. rewrite (Hno _ Hk) in Hw. discriminate.
+    + apply nth_error_In in Hj. rewrite (Hno _ Hj) in Hv. discriminate.
+    + apply nth_error_In in Hj. rewrite (Hno _ Hj) in Hv. discriminate.
+  - destruct j as [|j], k as [|k]; cbn [nth_error] in *.
+    + reflexivity.
+    + inversion Hj; subst. rewrite E in Hv. discriminate.
+    + inversion Hk; subst. rewrite E in Hw. discriminate.
+    + f_equal. eapply IH; eauto.
+Qed.
+
 Section Conc.
   Context {V IT : Type}.
   Variable cands : list V.                 (* snapshot k = the k-th candidate; 0 = before the first fetch *)
   Variable matches : V -> IT -> bool.
 
-  (* what a reader's records say once each table entry is resolved to a snapshot number ([idx]) *)
+  (* the view with table index k is the view that snapshot s gives *)
+  Definition resolves (table : list IT) (k s : N) : Prop :=
+    exists it v, nth_error table (N.to_nat k) = Some it /\ nth_error cands (N.to_nat s) = Some v /\ matches v it = true.
+  Definition one_copy (r : list N) : Prop := exists a b c d s, r = [a; b; c; d; s; s; s; s].
+
+  (* a reader's records have a consistent reading: every read (table index) resolved to a snapshot number that gives
+     the view read - the SAME view may be resolved differently at different reads, since two polls may give it - such
+     that the four fields of a struct copy are one snapshot and the reader never goes back to an older snapshot *)
+  Definition reader_views (table : list IT) (recs : list (list N)) : Prop :=
+    exists irecs : list (list N),
+      Forall2 (Forall2 (resolves table)) recs irecs /\
+      Forall one_copy irecs /\                           (* one struct copy = one snapshot *)
+      Sorted N.le (concat irecs).                        (* never back to an older one *)
+  Definition conc_spec (table : list IT) (readers : list (list (list N))) : Prop :=
+    Forall (fun it => exists v, In v cands /\ matches v it = true) table /\ Forall (reader_views table) readers.
+
+  (* ---- the forward pass decides reader_views ---- *)
+  Definition rres (rows : list (list bool)) (k s : N) : Prop :=
+    exists row, nth_error rows (N.to_nat k) = Some row /\ nth_error row (N.to_nat s) = Some true.
+
+  Lemma rres_resolves table k s : rres (match_rows cands matches table) k s <-> resolves table k s.
+  Proof.
+    unfold rres, resolves, match_rows. split.
+    - intros [row [Hrow Hs]]. rewrite nth_error_map in Hrow. destruct (nth_error table (N.to_nat k)) as [it|]; [|discriminate].
+      cbn in Hrow. inversion Hrow; subst row. rewrite nth_error_map in Hs.
+      destruct (nth_error cands (N.to_nat s)) as [v|]; [|discriminate]. cbn in Hs. inversion Hs. now exists it, v.
+    - intros [it [v [Hit [Hv Hm]]]]. exists (map (fun v => matches v it) cands). split.
+      + now apply (map_nth_error (fun it => map (fun v => matches v it) cands)).
+      + rewrite <- Hm. now apply (map_nth_error (fun v => matches v it)).
+  Qed.
+
+  Ltac inv_f2 :=
+    repeat match goal with
+           | H : Forall2 _ (_ :: _) _ |- _ => inversion H; clear H; subst
+           | H : Forall2 _ _ (_ :: _) |- _ => inversion H; clear H; subst
+           | H : Forall2 _ [] _ |- _ => inversion H; clear H; subst
+           | H : Forall2 _ _ [] |- _ => inversion H; clear H; subst
+           end.
+
+  Lemma walk_recs_sound rows : forall recs cur,
+    walk_recs rows recs cur = true ->
+    exists irecs, Forall2 (Forall2 (rres rows)) recs irecs /\ Forall one_copy irecs /\ chain cur (concat irecs).
+  Proof.
+    induction recs as [|r rest IH]; intros cur H.
+    - exists []. repeat split; constructor.
+    - cbn [walk_recs] in H. destruct (rec_events rows r) as [evs|] eqn:E; [|discriminate].
+      unfold rec_events in E.
+      destruct (all_some (map (fun k => nth_error rows (N.to_nat k)) r)) as [rws|] eqn:E1; [|discriminate].
+      apply all_some_map in E1.
+      destruct rws as [|ra [|rb [|rc [|rd [|r1 [|r2 [|r3 [|r4 [|x xs]]]]]]]]]; try discriminate.
+      inversion E; subst evs; clear E. inv_f2.
+      cbn [walk] in H.
+      destruct (next_set ra 0%N cur) as [sa|] eqn:Ea; [|discriminate].
+      destruct (next_set rb 0%N sa) as [sb|] eqn:Eb; [|discriminate].
+      destruct (next_set rc 0%N sb) as [sc|] eqn:Ec; [|discriminate].
+      destruct (next_set rd 0%N sc) as [sd|] eqn:Ed; [|discriminate].
+      destruct (next_set (and_rows (and_rows r1 r2) (and_rows r3 r4)) 0%N sd) as [s|] eqn:Es; [|discriminate].
+      apply next_set0_spec in Ea, Eb, Ec, Ed, Es.
+      destruct Ea as [La Sa], Eb as [Lb Sb], Ec as [Lc Sc], Ed as [Ld Sd], Es as [Ls Ss].
+      apply and_rows_set in Ss. destruct Ss as [S12 S34]. apply and_rows_set in S12, S34.
+      destruct S12 as [S1 S2], S34 as [S3 S4].
+      destruct (IH _ H) as [irecs [HF [Hone Hch]]].
+      exists ([sa; sb; sc; sd; s; s; s; s] :: irecs). split; [|split].
+      + constructor; [|exact HF]. repeat constructor; eexists; split; eassumption.
+      + constructor; [|exact Hone]. now exists sa, sb, sc, sd, s.
+      + cbn [concat app chain]. repeat split; try assumption; lia.
+  Qed.
+
+  Lemma walk_recs_complete rows : forall recs irecs,
+    Forall2 (Forall2 (rres rows)) recs irecs -> Forall one_copy irecs ->
+    forall cur cur', chain cur (concat irecs) -> (cur' <= cur)%N -> walk_recs rows recs cur' = true.
+  Proof.
+    induction 1 as [|r ir recs irecs Hr _ IH]; intros Hone cur cur' Hch Hle; [reflexivity|].
+    inversion Hone as [|x l [a [b [c [d [s ->]]]]] Hone']; subst. inv_f2.
+    repeat match goal with H : rres _ _ _ |- _ => destruct H as [? [? ?]] end.
+    cbn [concat app chain] in Hch. destruct Hch as [La [Lb [Lc [Ld [Ls [_ [_ [_ Hch]]]]]]]].
+    cbn [walk_recs]. unfold rec_events. cbn [map all_some].
+    repeat match goal with H : nth_error rows _ = Some _ |- _ => rewrite H; clear H end.
+    cbn [walk].
+    match goal with Ha : nth_error ?ra (N.to_nat a) = Some true |- context [next_set ?ra 0%N cur'] =>
+      destruct (next_set0_least ra cur' a ltac:(lia) Ha) as [a' [-> La']] end.
+    match goal with Ha : nth_error ?ra (N.to_nat b) = Some true |- context [next_set ?ra 0%N a'] =>
+      destruct (next_set0_least ra a' b ltac:(lia) Ha) as [b' [-> Lb']] end.
+    match goal with Ha : nth_error ?ra (N.to_nat c) = Some true |- context [next_set ?ra 0%N b'] =>
+      destruct (next_set0_least ra b' c ltac:(lia) Ha) as [c' [-> Lc']] end.
+    match goal with Ha : nth_error ?ra (N.to_nat d) = Some true |- context [next_set ?ra 0%N c'] =>
+      destruct (next_set0_least ra c' d ltac:(lia) Ha) as [d' [-> Ld']] end.
+    match goal with |- context [next_set ?R 0%N d'] =>
+      assert (HR : nth_error R (N.to_nat s) = Some true) by (rewrite !and_rows_set; repeat split; assumption);
+      destruct (next_set0_least R d' s ltac:(lia) HR) as [s' [-> Ls']] end.
+    eapply IH; [exact Hone'|exact Hch|exact Ls'].
+  Qed.
+
+  Lemma reader_views_iff table recs :
+    walk_recs (match_rows cands matches table) recs 0%N = true <-> reader_views table recs.
+  Proof.
+    unfold reader_views. split.
+    - intros H. apply walk_recs_sound in H. destruct H as [irecs [HF [Hone Hch]]]. exists irecs. split; [|split].
+      + eapply Forall2_imp_in; [exact HF|]. intros r ir Hr. eapply Forall2_imp_in; [exact Hr|]. intros k s. apply rres_resolves.
+      + exact Hone.
+      + now apply chain0_sorted.
+    - intros [irecs [HF [Hone Hs]]]. eapply walk_recs_complete with (irecs := irecs) (cur := 0%N).
+      + eapply Forall2_imp_in; [exact HF|]. intros r ir Hr. eapply Forall2_imp_in; [exact Hr|]. intros k s. apply rres_resolves.
+      + exact Hone.
+      + now apply chain0_sorted.
+      + lia.
+  Qed.
+
+  (* the executable property decides the clause: accepted iff a consistent reading exists.  "->" is soundness (b);
+     "<-" says that the records of a correct implementation - which has a true reading, the snapshot each read
+     really saw - are never rejected, whether or not two polls give equal views *)
+  Theorem conc_ok_iff table readers : conc_ok cands matches (table, readers) = true <-> conc_spec table readers.
+  Proof.
+    unfold conc_ok, conc_spec. rewrite andb_true_iff, !forallb_forall, !Forall_forall. split; intros [H1 H2]; split.
+    - intros it Hit. assert (Hrow : In (map (fun v => matches v it) cands) (match_rows cands matches table))
+        by (unfold match_rows; apply in_map_iff; now exists it).
+      apply H1 in Hrow. apply existsb_exists in Hrow. destruct Hrow as [b [Hb ->]].
+      apply in_map_iff in Hb. destruct Hb as [v [Hm Hv]]. now exists v.
+    - intros recs Hin. apply reader_views_iff. now apply H2.
+    - intros row Hrow. unfold match_rows in Hrow. apply in_map_iff in Hrow. destruct Hrow as [it [<- Hit]].
+      destruct (H1 _ Hit) as [v [Hv Hm]]. apply existsb_exists. exists true. split; [|reflexivity].
+      apply in_map_iff. now exists v.
+    - intros recs Hin. apply reader_views_iff. now apply H2.
+  Qed.
+  Lemma conc_ok_sound table readers : conc_ok cands matches (table, readers) = true -> conc_spec table readers.
+  Proof. apply conc_ok_iff. Qed.
+  Lemma conc_ok_complete table readers : conc_spec table readers -> conc_ok cands matches (table, readers) = true.
+  Proof. apply conc_ok_iff. Qed.
+
+  (* ---- the old property: one resolution [idx] of the whole table (first match) ---- *)
   Definition reader_prop (idx : list N) (recs : list (list N)) : Prop :=
     exists irecs : list (list N),
       Forall2 (Forall2 (fun k s => nth_error idx (N.to_nat k) = Some s)) recs irecs /\
-      Forall (fun r => exists a b c d s, r = [a; b; c; d; s; s; s; s]) irecs /\     (* one struct copy = one snapshot *)
-      Sorted N.le (concat irecs).                                                    (* never back to an older one *)
+      Forall one_copy irecs /\ Sorted N.le (concat irecs).
 
-  Lemma conc_ok_sound table readers :
-    conc_ok cands matches (table, readers) = true ->
+  Lemma conc_ok_before_sound table readers :
+    conc_ok_before cands matches (table, readers) = true ->
     exists idx : list N,
       Forall2 (fun it k => exists v, nth_error cands (N.to_nat k) = Some v /\ matches v it = true) table idx /\
       Forall (reader_prop idx) readers.
   Proof.
-    unfold conc_ok.
+    unfold conc_ok_before.
     destruct (all_some (map (fun it => find_idx (fun v => matches v it) cands 0%N) table)) as [idx|] eqn:E;
       [|discriminate].
     intros H. exists idx. split.
@@ -274,6 +522,63 @@ Section Conc.
       + apply all_some_map in E2. revert E2. apply Forall2_imp. intros r ir Hr. now apply all_some_map in Hr.
       + rewrite forallb_forall in H1. apply Forall_forall. intros r Hr. apply record_ok_spec, H1, Hr.
       + now apply nondecreasing_sorted.
+  Qed.
+
+  (* whatever the old property accepted the new one accepts: detection can only have been lost on inputs where a view
+     matches two candidates (next theorem) *)
+  Theorem conc_ok_before_implies table readers :
+    conc_ok_before cands matches (table, readers) = true -> conc_ok cands matches (table, readers) = true.
+  Proof.
+    intros H. apply conc_ok_complete. apply conc_ok_before_sound in H. destruct H as [idx [Ht Hr]]. split.
+    - eapply Forall2_Forall_l; [|exact Ht]. intros it k [v [Hv Hm]]. exists v. split; [now apply nth_error_In in Hv|exact Hm].
+    - eapply Forall_impl; [|exact Hr]. intros recs [irecs [HF [Hone Hs]]]. exists irecs. split; [|split; assumption].
+      eapply Forall2_imp_in; [exact HF|]. intros r ir Hrr. eapply Forall2_imp_in; [exact Hrr|]. intros k s Hk.
+      destruct (Forall2_nth_r _ _ _ Ht _ _ Hk) as [it [Hit [v [Hv Hm]]]]. now exists it, v.
+  Qed.
+
+  (* the views are pairwise distinct: no view of the table is given by two candidates *)
+  Definition distinct_viewsb (table : list IT) : bool :=
+    forallb (fun it => Nat.leb (length (filter (fun v => matches v it) cands)) 1) table.
+
+  (* on inputs with pairwise distinct views (what the harness generates) old and new property agree: nothing that was
+     detected is lost *)
+  Theorem conc_ok_same_on_distinct table readers :
+    distinct_viewsb table = true ->
+    conc_ok cands matches (table, readers) = conc_ok_before cands matches (table, readers).
+  Proof.
+    intros Hd. destruct (conc_ok_before cands matches (table, readers)) eqn:Eb.
+    - now apply conc_ok_before_implies.
+    - destruct (conc_ok cands matches (table, readers)) eqn:En; [|reflexivity]. exfalso.
+      apply conc_ok_sound in En. destruct En as [Ht Hr].
+      unfold distinct_viewsb in Hd. rewrite forallb_forall in Hd.
+      assert (Hidx : exists idx, Forall2 (fun it k => find_idx (fun v => matches v it) cands 0%N = Some k) table idx).
+      { clear Hr Eb Hd. induction table as [|it tb IH]; [exists []; constructor|].
+        inversion Ht as [|x l [v [Hv Hm]] Ht']; subst.
+        destruct IH as [idx Hidx]; [exact Ht'|].
+        assert (Hf : exists k, find_idx (fun v => matches v it) cands 0%N = Some k).
+        { clear -Hv Hm. generalize 0%N. induction cands as [|a l IH]; intros n; [destruct Hv|]. cbn [find_idx].
+          destruct (matches a it) eqn:E; [now exists n|]. destruct Hv as [->|Hv]; [congruence|now apply IH]. }
+        destruct Hf as [k Hk]. exists (k :: idx). now constructor. }
+      destruct Hidx as [idx Hidx].
+      assert (Hres : forall k s, resolves table k s -> nth_error idx (N.to_nat k) = Some s).
+      { intros k s [it [v [Hit [Hv Hm]]]]. destruct (Forall2_nth_l _ _ _ Hidx _ _ Hit) as [k' [Hk' Hf]].
+        destruct (find_idx_spec _ _ _ _ Hf) as [_ [w [Hw Hmw]]]. rewrite N.sub_0_r in Hw.
+        assert (Hlen := Hd it (nth_error_In _ _ Hit)). apply Nat.leb_le in Hlen.
+        assert (N.to_nat k' = N.to_nat s) by (eapply (filter_le1_unique _ _ Hlen); eauto).
+        rewrite Hk'. f_equal. lia. }
+      unfold conc_ok_before in Eb. rewrite (all_some_of_Forall2 _ _ _ Hidx) in Eb.
+      enough (forallb (fun recs =>
+        match all_some (map (fun r => all_some (map (fun k => nth_error idx (N.to_nat k)) r)) recs) with
+        | None => false
+        | Some irecs => forallb record_ok irecs && nondecreasing (concat irecs)
+        end) readers = true) by congruence.
+      apply forallb_forall. intros recs Hin. rewrite Forall_forall in Hr. destruct (Hr _ Hin) as [irecs [HF [Hone Hs]]].
+      rewrite (all_some_of_Forall2 _ recs irecs).
+      + apply andb_true_iff. split; [|now apply sorted_nondecreasing].
+        apply forallb_forall. intros r Hrin. rewrite Forall_forall in Hone.
+        destruct (Hone _ Hrin) as [a [b [c [d [s ->]]]]]. cbn [record_ok]. now rewrite !N.eqb_refl.
+      + eapply Forall2_imp_in; [exact HF|]. intros r ir Hrr. apply all_some_of_Forall2.
+        eapply Forall2_imp_in; [exact Hrr|]. exact Hres.
   Qed.
 
   Lemma conc_ok_nil : conc_ok cands matches ([], []) = true.
@@ -306,35 +611,62 @@ Definition hconc_view (i : hconc_in) (v : hviews) : Prop :=
 Lemma hconc_model_passes i : hconc_ok i (@nil hitem, @nil (list (list N))) = true.
 Proof. reflexivity. Qed.
 
+Definition hconc_cands (i : hconc_in) : list hviews := home_init :: map (fun es => home_derive (home_convert es)) i.
+Lemma hconc_cands_view i v : In v (hconc_cands i) -> hconc_view i v.
+Proof.
+  intros [<-|Hv]; [now left|]. right. apply in_map_iff in Hv. destruct Hv as [es [<- Hes]]. now exists es.
+Qed.
+Definition hconc_ok_before (i : hconc_in) (o : hconc_out) : bool := conc_ok_before (hconc_cands i) hitem_matches o.
+
+(* (b), without any side condition on the views: every view seen is the getter's answer / struct field of the initial
+   views or of home_derive of ONE polled configuration, and every reader's records have a consistent reading *)
 Lemma hconc_sound i table readers :
   hconc_ok i (table, readers) = true ->
-  exists idx : list N,
-    Forall2 (fun it k => exists v, nth_error (home_init :: map (fun es => home_derive (home_convert es)) i) (N.to_nat k) = Some v /\
-                                   hconc_view i v /\ hitem_is v it) table idx /\
-    Forall (reader_prop idx) readers.
+  Forall (fun it => exists v, hconc_view i v /\ hitem_is v it) table /\
+  Forall (reader_views (hconc_cands i) hitem_matches table) readers.
 Proof.
-  unfold hconc_ok. intros H. apply conc_ok_sound in H. destruct H as [idx [Ht Hr]]. exists idx. split; [|exact Hr].
-  revert Ht. apply Forall2_imp. intros it k [v [Hv Hm]]. exists v. split; [exact Hv|]. split; [|now apply hitem_matches_is].
-  apply nth_error_In in Hv. destruct Hv as [<-|Hv]; [now left|]. right.
-  apply in_map_iff in Hv. destruct Hv as [es [<- Hes]]. now exists es.
+  unfold hconc_ok. intros H. apply conc_ok_sound in H. destruct H as [Ht Hr]. split; [|exact Hr].
+  eapply Forall_impl; [|exact Ht]. intros it [v [Hv Hm]]. exists v.
+  split; [now apply hconc_cands_view|now apply hitem_matches_is].
 Qed.
+(* records that HAVE a consistent reading (those of a correct implementation: the snapshot each read really saw) are
+   never rejected *)
+Lemma hconc_complete i table readers :
+  Forall (fun it => exists v, In v (hconc_cands i) /\ hitem_matches v it = true) table ->
+  Forall (reader_views (hconc_cands i) hitem_matches table) readers ->
+  hconc_ok i (table, readers) = true.
+Proof. intros Ht Hr. unfold hconc_ok. apply conc_ok_complete. now split. Qed.
+Lemma hconc_before_implies i o : hconc_ok_before i o = true -> hconc_ok i o = true.
+Proof. destruct o as [table readers]. apply conc_ok_before_implies. Qed.
+Lemma hconc_same_on_distinct i table readers :
+  distinct_viewsb (hconc_cands i) hitem_matches table = true ->
+  hconc_ok i (table, readers) = hconc_ok_before i (table, readers).
+Proof. apply conc_ok_same_on_distinct. Qed.
 
 Definition hc_es (f : N) : list entry := [mkE (10 + f) [2] f (Some 1)]%N.
+Definition hc_table : list hitem :=
+  [IAll []; ISupp 2 []; IKnown []; IFch []; IAll (home_convert (hc_es 2)); ISupp 2 [12]; IKnown [12]; IFch [(12, 2)]]%N.
 Example hconc_ok_example :
-  hconc_ok [hc_es 1; hc_es 2]
-    ([IAll []; ISupp 2 []; IKnown []; IFch []; IAll (home_convert (hc_es 2)); ISupp 2 [12]; IKnown [12]; IFch [(12, 2)]]%N,
-     [[[0; 1; 2; 3; 0; 1; 2; 3]; [0; 1; 6; 7; 4; 5; 6; 7]]]%N) = true /\
+  hconc_ok [hc_es 1; hc_es 2] (hc_table, [[[0; 1; 2; 3; 0; 1; 2; 3]; [0; 1; 6; 7; 4; 5; 6; 7]]]%N) = true /\
+  distinct_viewsb (hconc_cands [hc_es 1; hc_es 2]) hitem_matches hc_table = true /\
   (* a struct copy that mixes two snapshots, and a reader that goes back, are rejected *)
   hconc_ok [hc_es 1; hc_es 2] ([IAll []; IFch [(12, 2)]]%N, [[[0; 0; 0; 0; 0; 0; 0; 1]]]%N) = false /\
   hconc_ok [hc_es 1; hc_es 2] ([IAll []; IFch [(12, 2)]]%N, [[[1; 1; 1; 1; 1; 1; 1; 1]; [0; 0; 0; 0; 0; 0; 0; 0]]]%N) = false.
 Proof. vm_compute. repeat split. Qed.
-(* conc_ok resolves an item to the FIRST candidate it matches: a view that is the same for two polled configurations
-   would be attributed to the older one (here ISupp 1 [] - peer 1 reads no chain in any configuration - next to fields
-   of snapshot 2).  The harness therefore makes every one of the four views differ between any two configurations. *)
+(* the old conc_ok resolved an item to the FIRST candidate it matches: a view that is the same for two polled
+   configurations was attributed to the older one (here ISupp 1 [] - peer 1 reads no chain in any configuration - next
+   to fields of snapshot 2), so a correct struct copy looked mixed: FALSE ALARM.  The repaired property accepts it, and
+   still rejects the record when the struct copy really is mixed (IKnown of snapshot 1 next to fields of snapshot 2)
+   or when the shared view is used to go back (snapshot 2, then a copy that can only be snapshot 1). *)
+Definition hc_shared : list hitem := [IAll (home_convert (hc_es 2)); ISupp 1 []; IKnown [12]; IFch [(12, 2)]; IKnown [11]]%N.
 Example hconc_ok_needs_distinct_views :
-  hconc_ok [hc_es 1; hc_es 2]
-    ([IAll (home_convert (hc_es 2)); ISupp 1 []; IKnown [12]; IFch [(12, 2)]]%N, [[[0; 1; 2; 3; 0; 1; 2; 3]]]%N) = false.
-Proof. vm_compute. reflexivity. Qed.
+  hconc_ok_before [hc_es 1; hc_es 2] (hc_shared, [[[0; 1; 2; 3; 0; 1; 2; 3]]]%N) = false /\
+  hconc_ok [hc_es 1; hc_es 2] (hc_shared, [[[0; 1; 2; 3; 0; 1; 2; 3]]]%N) = true /\
+  distinct_viewsb (hconc_cands [hc_es 1; hc_es 2]) hitem_matches hc_shared = false /\
+  hconc_ok [hc_es 1; hc_es 2] (hc_shared, [[[0; 1; 2; 3; 0; 1; 4; 3]]]%N) = false /\
+  hconc_ok [hc_es 1; hc_es 2] (hc_shared, [[[0; 1; 2; 3; 0; 1; 2; 3]; [1; 1; 1; 1; 1; 1; 4; 1]]]%N) = false /\
+  hconc_ok [hc_es 1; hc_es 2] (hc_shared, [[[1; 1; 1; 1; 1; 1; 4; 1]; [0; 1; 2; 3; 0; 1; 2; 3]]]%N) = true.
+Proof. vm_compute. repeat split. Qed.
 
 (* ---------- rconc ---------- *)
 Definition ritem_is (v : rviews) (it : ritem) : Prop :=
@@ -365,17 +697,27 @@ Qed.
 Lemma rconc_model_passes i : rconc_ok i (@nil ritem, @nil (list (list N))) = true.
 Proof. reflexivity. Qed.
 
+Definition rconc_ok_before (i : rconc_in) (o : rconc_out) : bool := conc_ok_before (rconc_cands i) ritem_matches o.
 Lemma rconc_sound i table readers :
   rconc_ok i (table, readers) = true ->
-  exists idx : list N,
-    Forall2 (fun it k => exists v, nth_error (rconc_cands i) (N.to_nat k) = Some v /\ rconc_view i v /\ ritem_is v it)
-            table idx /\
-    Forall (reader_prop idx) readers.
+  Forall (fun it => exists v, rconc_view i v /\ ritem_is v it) table /\
+  Forall (reader_views (rconc_cands i) ritem_matches table) readers.
 Proof.
-  unfold rconc_ok. intros H. apply conc_ok_sound in H. destruct H as [idx [Ht Hr]]. exists idx. split; [|exact Hr].
-  revert Ht. apply Forall2_imp. intros it k [v [Hv Hm]]. exists v. split; [exact Hv|].
-  split; [apply rconc_cands_view; eapply nth_error_In; exact Hv|now apply ritem_matches_is].
+  unfold rconc_ok. intros H. apply conc_ok_sound in H. destruct H as [Ht Hr]. split; [|exact Hr].
+  eapply Forall_impl; [|exact Ht]. intros it [v [Hv Hm]]. exists v.
+  split; [now apply rconc_cands_view|now apply ritem_matches_is].
 Qed.
+Lemma rconc_complete i table readers :
+  Forall (fun it => exists v, In v (rconc_cands i) /\ ritem_matches v it = true) table ->
+  Forall (reader_views (rconc_cands i) ritem_matches table) readers ->
+  rconc_ok i (table, readers) = true.
+Proof. intros Ht Hr. unfold rconc_ok. apply conc_ok_complete. now split. Qed.
+Lemma rconc_before_implies i o : rconc_ok_before i o = true -> rconc_ok i o = true.
+Proof. destruct o as [table readers]. apply conc_ok_before_implies. Qed.
+Lemma rconc_same_on_distinct i table readers :
+  distinct_viewsb (rconc_cands i) ritem_matches table = true ->
+  rconc_ok i (table, readers) = rconc_ok_before i (table, readers).
+Proof. apply conc_ok_same_on_distinct. Qed.
 
 Definition rc_vc (d i : N) : vconfig := mkVC d [mkRN (1000 * i) 21] [mkRC 1 i (Some 1%Z)] i.
 Definition rc_polls : rconc_in := [(rc_vc 7 1, rc_vc 101 1); (rc_vc 7 2, rc_vc 102 2)]%N.
@@ -388,6 +730,17 @@ Example rconc_ok_example :
   get_nodes_info rc_v2 7 = Some [mkHN 0 2000 21 [1]]%N /\
   (* a struct copy mixing two snapshots is rejected *)
   rconc_ok rc_polls ([RDig 7 101; RDig 7 102]%N, [[[0; 0; 0; 0; 0; 0; 0; 1]]]%N) = false.
+Proof. vm_compute. repeat split. Qed.
+(* the same false alarm of the old property: "no offchain config under digest 0" (ROff 0 None) is the answer of every
+   snapshot; next to fields of snapshot 2 the old property called the copy mixed *)
+Definition rc_table : list ritem :=
+  [RDig 0 0; RNodes 7 None; RF 7 None; ROff 7 None; ROff 0 None;
+   RDig 7 102; RNodes 7 (Some [mkHN 0 2000 21 [1]]); RF 7 (Some [(1, 2%Z)]); ROff 7 (Some 2); ROff 102 (Some 2)]%N.
+Example rconc_ok_needs_distinct_views :
+  rconc_ok_before rc_polls (rc_table, [[[0; 1; 2; 3; 5; 6; 7; 4]]]%N) = false /\
+  rconc_ok rc_polls (rc_table, [[[0; 1; 2; 3; 5; 6; 7; 4]]]%N) = true /\
+  distinct_viewsb (rconc_cands rc_polls) ritem_matches rc_table = false /\
+  rconc_ok rc_polls (rc_table, [[[0; 1; 2; 3; 5; 6; 2; 4]]]%N) = false.
 Proof. vm_compute. repeat split. Qed.
 
 (* =====================================================================================================
